@@ -102,8 +102,18 @@ def check_routes(desc):
         res['counters']['runs'] += 1
         return wl
 
-    # (1) per call, global = defaults; the global must stay the defaults
-    run_route('per_call', lambda: ampycloud.run(df, prms=copy.deepcopy(p)))
+    # (1) per call, global = defaults; the global must stay the defaults; exactly the named keys are overridden
+    kept = {}
+
+    def r1():
+        ch = ampycloud.run(df, prms=copy.deepcopy(p))
+        kept['prms'] = copy.deepcopy(ch.prms)
+        return ch
+    run_route('per_call', r1)
+    if 'prms' in kept and kept['prms'] != eff:
+        bad = [k for k in eff if kept['prms'].get(k, '<missing>') != eff[k]] + [k for k in kept['prms'] if k not in eff]
+        oracles.V(viol, 'C12', 'per-call values must override exactly the keys named (chunk parameters != defaults + named keys)',
+                  keys=bad[:6], prms=p)
     if dynamic.AMPYCLOUD_PRMS != defaults:
         oracles.V(viol, 'C12', 'a per-call run changed the global parameters')
     # (2) in-place edits of the global
